@@ -17,6 +17,7 @@ CONSTANTS
   FinalReset = TRUE
   CompRebases = TRUE
   MaxUser = 4
+  CompSkips = FALSE
 INVARIANT TypeOK
 INVARIANT EndStateNominal
 CHECK_DEADLOCK FALSE
